@@ -155,7 +155,8 @@ class TokenParser(Parser):
         if tokens.next == self.TOK.IDENTIFIER:
             type_ = self.cstruct.resolve(self._identifier(tokens))
         elif tokens.next == self.TOK.STRUCT:
-            type_ = self._struct(tokens)
+            # (a tagged structure is known by its tag while its fields are parsed: typedef struct _n { struct _n *next; } n;)
+            type_ = self._struct(tokens, preregister=True)
             if not type_.__anonymous__:
                 names.append(type_.__name__)
 
@@ -171,7 +172,7 @@ class TokenParser(Parser):
                 raise ParserError(f"line {self._lineno(tokens.previous)}: typedefs cannot have bitfields")
             self.cstruct.add_type(name, type_)
 
-    def _struct(self, tokens: TokenConsumer, register: bool = False) -> type[Structure]:
+    def _struct(self, tokens: TokenConsumer, register: bool = False, preregister: bool = False) -> type[Structure]:
         stype = tokens.consume()
 
         factory = self.cstruct._make_union if stype.value.startswith("union") else self.cstruct._make_struct
@@ -182,7 +183,7 @@ class TokenParser(Parser):
 
         if tokens.next == self.TOK.IDENTIFIER:
             ident = tokens.consume()
-            if register:
+            if register or (preregister and tokens.next == self.TOK.BLOCK):
                 # Pre-register an empty struct for self-referencing
                 # We update this instance later with the fields
                 st = factory(ident.value, [], align=self.align)
